@@ -18,3 +18,38 @@ fp("dask/array/_shuffle.py", "shuffle", "_shuffle", "_calculate_new_chunksizes",
 fp("dask/array/routines.py", "_bincount_agg", "bincount", "digitize", "_searchsorted_block", "searchsorted", "_block_hist",
    "histogram", "histogram2d", "histogramdd", "_unique_internal", "unique", "isin", "_isin_kernel", "argwhere", "nonzero",
    "flatnonzero", "count_nonzero", "unravel_index", "ravel_multi_index", "aligned_coarsen_chunks", "coarsen", "compress", "extract")
+
+
+# ---------------------------------------------------------------------------------------------
+# C24 (_shuffle) / C23 (auto_chunks): array.chunk-size-tolerance as an exact fraction
+# ---------------------------------------------------------------------------------------------
+import os as _os
+import re as _re
+from fractions import Fraction as _Fraction
+
+from tables import ExtractError, table
+
+
+@table("ChunkTolerance")
+def chunk_tolerance(repo):
+    """`array: chunk-size-tolerance: 1.25` of dask/dask.yaml, as numerator/denominator"""
+    path = _os.path.join(repo, "dask", "dask.yaml")
+    with open(path) as f:
+        text = f.read()
+    m = _re.search(r"(?m)^array:\s*\n((?:[ \t]+.*\n|\s*\n)+)", text)
+    if not m:
+        raise ExtractError("dask.yaml: top-level `array:` section not found")
+    m2 = _re.search(r"(?m)^[ \t]+chunk-size-tolerance:\s*([0-9]+(?:\.[0-9]+)?)\s*(?:#.*)?$", m.group(1))
+    if not m2:
+        raise ExtractError("dask.yaml: array.chunk-size-tolerance is not a plain decimal literal")
+    fr = _Fraction(m2.group(1))
+    if fr < 1:
+        raise ExtractError("array.chunk-size-tolerance < 1")
+    return ("namespace Dask.Generated.ChunkTolerance\n\n"
+            f"/-- `array.chunk-size-tolerance` = {m2.group(1)} (dask/dask.yaml) as a fraction -/\n"
+            f"def tolNum : Nat := {fr.numerator}\n"
+            f"def tolDen : Nat := {fr.denominator}\n\n"
+            "/-- the tolerance is at least one (what `_shuffle`'s grouping loop relies on) -/\n"
+            "theorem tol_ge_one : tolDen ≤ tolNum := by decide\n\n"
+            "theorem tolDen_pos : 0 < tolDen := by decide\n\n"
+            "end Dask.Generated.ChunkTolerance\n")
